@@ -388,6 +388,11 @@ def apply_op(ctx, topo, index, o, k):
         d, c, sgn, m = a
         pos = topo.trim(sgn * (ctx.geom[d - 1] - c / ctx.A), maxrefine=m, name='trim{}'.format(k))
         return pos, topo - pos
+    if op == 'trim2':
+        c1, s1, c2, s2, m, mode = a
+        f1, f2 = s1 * (ctx.geom[0] - c1 / ctx.A), s2 * (ctx.geom[1] - c2 / ctx.A)
+        pos = topo.trim(numpy.maximum(f1, f2) if mode == 0 else numpy.minimum(f1, f2), maxrefine=m, name='trim{}'.format(k))
+        return pos, topo - pos
     raise ValueError(op)
 
 
@@ -405,7 +410,7 @@ class Replayer:
     def __init__(self):
         self.ctx = {}
         self.nodes = {}       # (base, L, json(hist prefix)) -> dict(topo, index, fail)
-        self.stats = dict(states=0, bstates=0, bfacets=0, ifacets=0, cuts=0, elements=0, groups=0)
+        self.stats = dict(states=0, bstates=0, bfacets=0, ifacets=0, cuts=0, elements=0, groups=0, unions=0)
 
     def context(self, base, L):
         if (base, L) not in self.ctx:
@@ -417,9 +422,17 @@ class Replayer:
         key = (case['base'], case['L'], json.dumps(case['hist'][:k], sort_keys=True))
         if key in self.nodes:
             return self.nodes[key]
-        ctx = self.context(case['base'], case['L'])
         node = dict(topo=None, index=None, fail=None, comp=None)
         self.nodes[key] = node
+        try:
+            ctx = self.context(case['base'], case['L'])
+        except Exception as e:
+            node['fail'] = ('base:{}:raises-{}'.format(BASES[case['base']][0], type(e).__name__), 'constructing the base mesh {} raised {!r}'.format(case['base'], e), dict(base=case['base']))
+            self.ctx[case['base'], case['L']] = None
+            return node
+        if ctx is None:
+            node['fail'] = 'inherited'
+            return node
         what = '{}(L={}): {}'.format(case['base'], case['L'], hist_label(case['hist'][:k]))
         try:
             if k == 0:
@@ -435,17 +448,22 @@ class Replayer:
                 except Exception as e:
                     raise Failure('op:{}:raises-{}:{}'.format(o['op'], type(e).__name__, nesting(parent['topo'])), '{}: the operation raised {!r}'.format(what, e))
             node['topo'] = topo
-            self.observe(ctx, topo, comp, preds[k], what, node, k, leaf=(k == len(case['hist'])))
+            self.observe(ctx, topo, comp, preds[k], what, node, k, leaf=(k == len(case['hist'])), before=preds[k - 1] if k else None)
         except Failure as f:
             key = f.key
             if ctx.periodic2 and key.split(':')[0] in ('boundary', 'interfaces', 'cut', 'group'):
                 # two elements in a periodic direction: an element neighbours the same element through two edges, and
                 # util.index(connectivity[opposite], element) picks the first of them
                 key = 'periodic2:ambiguous-opposite-edge'
+            ops = [o['op'] for o in case['hist'][:k]]
+            if 'trim2' in ops[:-1] and ops[-1] in ('trim', 'trim2') and key.split(':')[0] in ('boundary', 'interfaces', 'cut', 'group'):
+                # trimming again after a trim that left non-convex elements: the reference algebra of nested WithChildrenReference
+                # objects with different bases is incomplete (TypeError / ValueError) or silently wrong (facets twice)
+                key = 'retrim-after-trim2:' + key.split(':')[0]
             node['fail'] = (key, f.what, dict(base=case['base'], L=case['L'], hist=case['hist'][:k], detail=f.data))
         return node
 
-    def observe(self, ctx, topo, comp, p, what, node, k, leaf=False):
+    def observe(self, ctx, topo, comp, p, what, node, k, leaf=False, before=None):
         self.stats['states'] += 1
         node['index'] = compare_cells(ctx, topo, p['cells'], what)
         self.stats['elements'] += len(node['index'])
@@ -453,6 +471,8 @@ class Replayer:
             cwhat = what + ' [complement]'
             cindex = compare_cells(ctx, comp, p['ccells'], cwhat)
         if not p['bd']:
+            if p['trim'] and p['ccells']:
+                self.observe_union(ctx, topo, comp, p, before, what)
             return
         self.stats['bstates'] += 1
         self.stats['bfacets'] += compare_boundary(ctx, topo, p['B'], p['vol2'], what)
@@ -472,7 +492,28 @@ class Replayer:
             compare_boundary(ctx, topo, p['cut'], 0, what + ' [cut]', group=name, allB={tuple(f['p']) for f in p['B']})
             if p['ccells']:
                 compare_boundary(ctx, comp, flipped, 0, cwhat + ' [cut]', group=name, allB={tuple(f['p']) for f in p['cB']})
+                self.observe_union(ctx, topo, comp, p, before, what)
             self.stats['cuts'] += 1
+
+    def observe_union(self, ctx, topo, comp, p, before, what):
+        """trimmed part | complement is the topology before the trim, element by element"""
+        uwhat = what + ' [trimmed | complement]'
+        try:
+            union = topo | comp
+        except Exception as e:
+            raise Failure('op:or:raises-{}:{}'.format(type(e).__name__, nesting(topo)), '{}: the union raised {!r}'.format(uwhat, e))
+        uindex = compare_cells(ctx, union, before['cells'], uwhat)
+        if before['bd'] and p['bd']:
+            compare_boundary(ctx, union, before['B'], before['vol2'], uwhat)
+            compare_interfaces(ctx, union, before['I'], uindex, uwhat)
+        # the same through UnionTopology (plain element lists, references of common elements are united)
+        uwhat = what + ' [take(trimmed) | take(complement)]'
+        try:
+            union = topo.take(numpy.arange(len(topo))) | comp.take(numpy.arange(len(comp)))
+        except Exception as e:
+            raise Failure('op:or:raises-{}:UnionTopology'.format(type(e).__name__), '{}: the union raised {!r}'.format(uwhat, e))
+        compare_cells(ctx, union, before['cells'], uwhat)
+        self.stats['unions'] += 1
 
     def run_case(self, case, preds):
         """-> (failure or None, number of steps validated)"""
